@@ -171,7 +171,53 @@ func (p c01) bulkLazy(c *core.Ctx) {
 	c.Nontrivial(fmt.Sprintf("bulk|%d|%v|%v", nW, plan, pause))
 }
 
+// concretePartner: a cycle partner that declares the concrete pointer type of the cycle's entry component, which a
+// post-processor replaces (after initialisation) by a wrapper of another type. Whatever the start answers, two
+// holders of "a-entry" - the partner, the interface-typed outsider, a lookup - never see different objects.
+func (p c01) concretePartner(c *core.Ctx) {
+	g := world.NewG(c.Rng)
+	t := []int{0, 1, 3}[c.Rng.Intn(3)]
+	a := g.AddNode(t, "a-entry")
+	b := g.AddNode([]int{0, 1, 3, 2}[c.Rng.Intn(4)], "b-partner")
+	g.EdgeByName(a, b, "", "iface")
+	slot := fmt.Sprintf("P%02d", t)
+	g.SetTag(b, slot, "wire", []string{"a-entry", ""}[c.Rng.Intn(2)])
+	h := g.AddNode([]int{2, 13}[c.Rng.Intn(2)], "c-other")
+	g.SetTag(h, "IA0", "wire", "a-entry")
+	g.ShuffleOrders()
+	plan := map[string]world.SubPlan{"a-entry": []world.SubPlan{{After: true}, {Before: true}}[c.Rng.Intn(2)]}
+	r := world.Start(g.Sc, world.Options{Extra: []any{world.NewSubstituter(plan)}})
+	c.Count("starts", 1)
+	c.Count("concrete_partner_starts", 1)
+	detail := failDetail(g.Sc, r, map[string]any{"substitution_plan": plan})
+	if r.Outcome() != "ok" {
+		c.Nontrivial("concretepartner-refused|" + g.Sc.GraphSig())
+		return
+	}
+	var final any
+	var err error
+	r.Guard(func() { final, err = r.App.GetComponentByName("a-entry") })
+	if err != nil {
+		return
+	}
+	for _, hs := range []struct {
+		n    int
+		slot string
+	}{{b, slot}, {h, "IA0"}} {
+		refs, _ := r.SlotRefs(r.Nodes[hs.n], hs.slot)
+		if len(refs) == 1 && !refs[0].Nil && refs[0].Obj != final {
+			c.Fail("", fmt.Sprintf("two instances of singleton \"a-entry\": %s.%s holds %p but a lookup returns %p", g.Sc.Nodes[hs.n].DisplayName(), hs.slot, refs[0].Obj, final), detail)
+			return
+		}
+	}
+	c.Nontrivial("concretepartner-ok|" + g.Sc.GraphSig())
+}
+
 func (p c01) Run(c *core.Ctx) {
+	if c.Index%16 == 13 && c.Index < p.randomCount(c.Tier) {
+		p.concretePartner(c)
+		return
+	}
 	if c.Index%16 == 7 && c.Index < p.randomCount(c.Tier) {
 		p.ppDependency(c)
 		return
